@@ -30,12 +30,12 @@ def run(chk, repo):
         "executions)."
     )
     chk.trusted = ["call graph over-approximates calls (references to functions count as calls)", "fsspec.get_mapper infers the protocol from its URL argument"]
-    g1_g2(chk, op)
-    g3_threading(chk, op, "C07-G3")
-    g4(chk, op)
-    check_codec(chk, repo, "C07")
-    naming(chk, op)
-    provenance(chk, op)
+    chk.attempt(g1_g2, chk, op)
+    chk.attempt(g3_threading, chk, op, "C07-G3")
+    chk.attempt(g4, chk, op)
+    chk.attempt(check_codec, chk, repo, "C07")
+    chk.attempt(naming, chk, op)
+    chk.attempt(provenance, chk, op)
     chk.count("functions", len(op.reach))
 
 
